@@ -874,3 +874,112 @@ pub fn present(
         }
     }
 }
+
+// ---------------------------------------------------------------------------------
+// the core builder object Paseto<V,P>, used for several tokens
+// ---------------------------------------------------------------------------------
+
+#[derive(Clone, Debug)]
+pub enum COp {
+    Payload(String),
+    Footer(String),
+    Assertion(String),
+    /// try_encrypt / try_sign with key `key` (index) and nonce seed
+    Mint { key: usize, seed: [u8; 32] },
+}
+
+macro_rules! run_core_local {
+    ($V:ident, $N:literal, $ops:expr, $kms:expr, assert=$has:tt) => {{
+        let keys: Vec<_> = $kms.iter().map(|km| PasetoSymmetricKey::<$V, Local>::from(Key::<32>::from(km.sym))).collect();
+        let mut outs: Vec<Out<String>> = vec![];
+        let mut b = Paseto::<$V, Local>::builder();
+        for op in $ops.iter() {
+            match op {
+                COp::Payload(m) => {
+                    b.set_payload(Payload::from(m.as_str()));
+                }
+                COp::Footer(f) => {
+                    b.set_footer(Footer::from(f.as_str()));
+                }
+                COp::Assertion(_a) => {
+                    run_generic_builder!(@assert $has, b, _a);
+                }
+                COp::Mint { key, seed } => {
+                    let nk = Key::<$N>::from(&seed[..$N]);
+                    let nonce = PasetoNonce::<$V, Local>::from(&nk);
+                    let k = &keys[*key];
+                    let r = guard(|| match b.try_encrypt(k, &nonce) {
+                        Ok(t) => Out::Ok(t),
+                        Err(e) => Out::ErrBuild(format!("cipher:{}", variant_name(&format!("{:?}", e)))),
+                    });
+                    outs.push(r);
+                }
+            }
+        }
+        outs
+    }};
+}
+
+macro_rules! run_core_public {
+    ($V:ident, $ops:expr, $keys:expr, assert=$has:tt) => {{
+        let mut outs: Vec<Out<String>> = vec![];
+        let mut b = Paseto::<$V, Public>::builder();
+        for op in $ops.iter() {
+            match op {
+                COp::Payload(m) => {
+                    b.set_payload(Payload::from(m.as_str()));
+                }
+                COp::Footer(f) => {
+                    b.set_footer(Footer::from(f.as_str()));
+                }
+                COp::Assertion(_a) => {
+                    run_generic_builder!(@assert $has, b, _a);
+                }
+                COp::Mint { key, .. } => {
+                    let k = &$keys[*key];
+                    let r = guard(|| match b.try_sign(k) {
+                        Ok(t) => Out::Ok(t),
+                        Err(e) => Out::ErrBuild(format!("cipher:{}", variant_name(&format!("{:?}", e)))),
+                    });
+                    outs.push(r);
+                }
+            }
+        }
+        outs
+    }};
+}
+
+/// Runs a call history on ONE core builder object; one outcome per Mint.
+pub fn run_core_object(pr: Proto, ops: &[COp], kms: &[KeyMat]) -> Vec<Out<String>> {
+    let n = ops.iter().filter(|o| matches!(o, COp::Mint { .. })).count().max(1);
+    let r = catch_unwind(AssertUnwindSafe(|| match (pr.v, pr.public) {
+        (1, false) => run_core_local!(V1, 32, ops, kms, assert = no),
+        (2, false) => run_core_local!(V2, 24, ops, kms, assert = no),
+        (3, false) => run_core_local!(V3, 32, ops, kms, assert = yes),
+        (4, false) => run_core_local!(V4, 32, ops, kms, assert = yes),
+        (1, true) => {
+            let keys: Vec<_> = kms.iter().map(|km| PasetoAsymmetricPrivateKey::<V1, Public>::from(km.rsa_sk.as_slice())).collect();
+            run_core_public!(V1, ops, keys, assert = no)
+        }
+        (2, true) => {
+            let raw: Vec<_> = kms.iter().map(|km| Key::<64>::from(km.ed_sk)).collect();
+            let keys: Vec<_> = raw.iter().map(PasetoAsymmetricPrivateKey::<V2, Public>::from).collect();
+            run_core_public!(V2, ops, keys, assert = no)
+        }
+        (3, true) => {
+            let raw: Vec<_> = kms.iter().map(|km| Key::<48>::from(km.p384_sk)).collect();
+            let keys: Vec<_> = raw.iter().map(PasetoAsymmetricPrivateKey::<V3, Public>::from).collect();
+            run_core_public!(V3, ops, keys, assert = yes)
+        }
+        (4, true) => {
+            let raw: Vec<_> = kms.iter().map(|km| Key::<64>::from(km.ed_sk)).collect();
+            let keys: Vec<_> = raw.iter().map(PasetoAsymmetricPrivateKey::<V4, Public>::from).collect();
+            run_core_public!(V4, ops, keys, assert = yes)
+        }
+        _ => unreachable!(),
+    }));
+    match r {
+        Ok(v) => v,
+        Err(_) => vec![Out::Panic(LAST_PANIC.with(|p| p.borrow().clone())); n],
+    }
+}
